@@ -406,12 +406,23 @@ func checkCase(c Case) error {
 			if at.Op == "File.Write" || at.Op == "File.Read" {
 				kinds = append(kinds, "short")
 			}
+			if at.Op == "File.Read" {
+				kinds = append(kinds, "short_ok")
+			}
 			for _, kind := range kinds {
 				fault(op.name+"/"+at.Op, k, kind)
 				rec := mk()
 				rec.Fault = recfs.Fault{At: k, Kind: kind}
 				okv, err := op.run(rec)
 				if !rec.Fired {
+					continue
+				}
+				if kind == "short_ok" {
+					// a short count without an error is legal reader behaviour, not a failure: the operation may succeed,
+					// but then with the right value
+					if !okv {
+						return fmt.Errorf("%s: read %d of %d returned a short count without error and the operation returned a wrong value (err=%v)", op.name, k, n, err)
+					}
 					continue
 				}
 				if err == nil {
